@@ -55,14 +55,13 @@ example : encodeFields 1 [3, 3, 3, 200] = [(9, 259), (5, 30), (3, 4), (12, 2376)
     `Hendbitaccess(aid, 0)` (model `H4.BitIO.pack`); `decompress skip raw n` = `HCIcskphuff_decode` on the bit stream of the
     raw bytes (each `Hbitread(aid, 1, ·)` delivers the next bit of `bytesBits raw`: `bitread_refines`).
     For every skip size ≥ 1 and EVERY byte stream, the bytes stored through the real bit layer
-    (buffering, block flushes, final-byte padding — stale or not — and the appended stale buffer tail of long streams
-    included) decode to exactly the bytes written. -/
+    (buffering, block flushes, final-byte padding included) decode to exactly the bytes written. -/
 theorem skphuff_roundtrip (skip : Nat) (hs : 1 ≤ skip) (bs : List UInt8) :
     decompress skip (compress skip bs) bs.length = some bs := by
   unfold decompress compress
-  obtain ⟨⟨tail, ht⟩, _⟩ := bitwrite_refines (encodeFields skip bs) (encRunF_valid skip bs _ _) (some false)
+  obtain ⟨⟨k, _, ht⟩, _⟩ := bitwrite_refines (encodeFields skip bs) (encRunF_valid skip bs _ _) false
   rw [ht, skphuff_fields_bits]
-  exact skphuff_bits_roundtrip skip hs bs tail
+  exact skphuff_bits_roundtrip skip hs bs (List.replicate k false)
 
 example : decompress 2 (compress 2 [18, 18, 18, 3, 6, 15, 0, 3]) 8 = some [18, 18, 18, 3, 6, 15, 0, 3] :=
   skphuff_roundtrip 2 (by decide) _
